@@ -392,8 +392,14 @@ def setup_pfreq(it, cfg):
         files[f"{base}/policy{k}/scaling_min_freq"] = ("int", mn)
         files[f"{base}/policy{k}/scaling_max_freq"] = ("int", mx)
     SysFS(it, files, globs={f"{base}/policy[0-9]*": paths}).install()
-    it.env_over["_pslinux._cpu_get_cpuinfo_freq"] = EnvFunc("cpuinfo", lambda it2: [])
-    return {"args": {}, "spec": {"vals": vals, "n": n}, "values": [v for t in vals.values() for v in t]}
+    # /proc/cpuinfo "cpu MHz" values: none, one per CPU (then they are the current frequencies), or fewer than CPUs (an
+    # offline CPU is missing from cpuinfo: the list cannot be matched to CPUs by position, the sysfs files are used)
+    m = {"none": 0, "all": n, "short": max(0, n - 1)}[cfg.get("cpuinfo", "none")]
+    mhz = [it.fresh(f"mhz{k}", "Int") for k in range(m)]
+    it.env_over["_pslinux._cpu_get_cpuinfo_freq"] = EnvFunc("cpuinfo", lambda it2: list(mhz))
+    use_info = cfg.get("cpuinfo") == "all"
+    cur = {k: (smt.Mul(mhz[k], I(1000)) if use_info else vals[k][0]) for k in range(n)}
+    return {"args": {}, "spec": {"vals": vals, "n": n, "cur": cur}, "values": [v for t in vals.values() for v in t] + mhz}
 
 
 def in_cpufreq_world(node, guards):
@@ -414,9 +420,10 @@ def in_cpufreq_world(node, guards):
 
 REGISTRY.add(Contract(
     "C19", LINUX_PY, "cpu_freq", which=in_cpufreq_world, name="_pslinux.cpu_freq(sysfs)", setup=setup_pfreq, env=ENV,
-    configs=[{"n": 1}, {"n": 3}, {"n": 12}],
+    configs=[{"n": 1}, {"n": 3}, {"n": 12}, {"n": 3, "cpuinfo": "all"}, {"n": 3, "cpuinfo": "short"},
+             {"n": 2, "cpuinfo": "short"}],
     ensures=["len(result) == n",
-             "forall(range(n), lambda i: result[i].current * 1000 == vals[i][0] and result[i].min * 1000 == vals[i][1] "
+             "forall(range(n), lambda i: result[i].current * 1000 == cur[i] and result[i].min * 1000 == vals[i][1] "
              "and result[i].max * 1000 == vals[i][2])"],
     raises={}, canaries=["len(result) == 77"], replay=None,
     note="kHz files scaled to MHz; entry i is CPU i whatever order the directory listing has (numeric, not lexical: "
